@@ -57,6 +57,8 @@ func replay(cw *caseWriter, path string) {
 			c16exec(cw, tag, in)
 		case 17:
 			c17exec(cw, tag, in)
+		case 18, 1801, 1018:
+			c18exec(cw, tag, comp, in)
 		case 1001, 1002, 1003, 1004, 1005, 1006, 1007, 1008, 1009, 1010, 1011, 1012:
 			res := runScenario(int(in[0]), in[1])
 			cw.emit(tag, comp, in, []uint64{uint64(res.events), uint64(res.leaders), uint64(res.acks), uint64(res.crashes), uint64(len(res.findings))}, true)
@@ -119,6 +121,8 @@ func main() {
 		runC16(cw, tier, seed)
 	case "c17":
 		runC17(cw, tier, seed)
+	case "c18":
+		runC18(cw, tier, seed)
 	case "c07":
 		runC07(cw, tier, seed)
 	case "c11":
